@@ -90,6 +90,7 @@ func build(aged bool) *scen {
 		w.Must("buy", w.Buy(s.cons[0], s.cons[0], "plana", 2, true, false))
 		w.Must("buy", w.Buy(s.cons[1], s.cons[1], "plana", 1, false, false))
 		w.Must("fund", s.fund(0, specA, 2, 5000))
+		w.Must("fund", s.fund(1, specB, 3, 3000)) // two specs funded for the same months: partially serviced months are reachable
 		w.Must("delegate", s.delegate(0, 50000))
 		w.AdvanceToNextEpoch(chain.BlockDt)
 		w.Must("pay", s.pay(0, 0, specA, 500))
@@ -379,14 +380,22 @@ var _ = testkeeper.GetModuleAddress
 
 func runCheck(property string) func(run *ev.Run) {
 	return func(run *ev.Run) {
-		depth, deadline := 4, 80*time.Second
+		depth, deadline := 4, 100*time.Second
 		if ev.Tier() == "thorough" {
 			depth, deadline = 6, 25*time.Minute
 		}
 		filtered := ev.NewRun(property, "model_checking")
 		exh := true
-		for _, n := range []string{"fresh", "aged"} {
-			cfg := bfs.Config{Scenario: "econ/" + n, MaxDepth: depth, Deadline: deadline / 2}
+		begin := time.Now()
+		for i, n := range []string{"aged", "fresh"} {
+			dl := deadline * 6 / 10
+			if i == 1 {
+				dl = deadline - time.Since(begin)
+				if dl < 20*time.Second {
+					dl = 20 * time.Second
+				}
+			}
+			cfg := bfs.Config{Scenario: "econ/" + n, MaxDepth: depth, Deadline: dl}
 			st := bfs.Explore(cfg, filtered)
 			bfs.Report(run, n, cfg, st)
 			exh = exh && st.Exhaustive
